@@ -367,22 +367,32 @@ macro_rules! __priv_pa_find_skip_either {
     ) => {{
         let mut __konst_pm_bytes = $crate::__priv_pa_bytes_accessor!(get, $accessor_args);
 
+        // the search runs without any caller code inside the loop,
+        // so that `break`/`continue` in the branches refer to the caller's loops.
         loop {
             match __konst_pm_bytes {
                 $(
-                    $( $crate::$pat_proc_macro!(__konst_pm_rem, $pattern))|* => {
-                        $crate::__priv_pa_bytes_accessor!(set, $accessor_args, __konst_pm_rem);
-                        break $e
-                    }
+                    #[allow(unused_variables)]
+                    $( $crate::$pat_proc_macro!(__konst_pm_rem, $pattern))|* => break,
                 )*
                 _ => {
                     if let $split_first_pat = __konst_pm_bytes {
                         __konst_pm_bytes = $brem;
                     } else {
-                        break $default;
+                        break;
                     }
                 }
             }
+        }
+
+        match __konst_pm_bytes {
+            $(
+                $( $crate::$pat_proc_macro!(__konst_pm_rem, $pattern))|* => {
+                    $crate::__priv_pa_bytes_accessor!(set, $accessor_args, __konst_pm_rem);
+                    $e
+                }
+            )*
+            _ => $default,
         }
     }}
 }
